@@ -664,6 +664,10 @@ func c09Helpers(rc *RC) {
 	// the peer answers every get/set IQ with a drawn reply
 	mode := ch.Int("workload", 6) // 0 canonical for some namespace, 1-3 mutated, 4 error, 5 other-namespace payload
 	reply := c09Replies[ch.Int("workload", len(c09Replies))]
+	if i := c09MatchingReply(h.name); i >= 0 && ch.Chance("workload", 1, 2) {
+		// half of the time the reply is (a mutation of) what this helper expects, so that its decoding is reached in depth
+		reply = c09Replies[i]
+	}
 	if mode >= 1 && mode <= 3 && reply != "" {
 		reply = mutate(rc, reply, mode, ch.Chance("workload", 1, 2))
 	}
@@ -753,4 +757,22 @@ func c09Helpers(rc *RC) {
 	}
 	rc.Check("C09.c3", "stuck-after-teardown", len(stuck) == 0, "tasks still blocked after teardown: %v", stuck)
 	_ = simrt.Yield
+}
+
+// c09MatchingReply: index of the canonical reply a helper expects (-1: any).
+func c09MatchingReply(helper string) int {
+	for _, m := range []struct {
+		prefix string
+		idx    int
+	}{
+		{"disco.GetInfo", 0}, {"disco.FetchItems", 1}, {"disco.WalkItem", 1}, {"commands.Fetch", 1}, {"IterIQ", 1},
+		{"roster.", 2}, {"version.Get", 3}, {"UnmarshalIQ", 3}, {"xtime.Get", 4}, {"upload.GetSlot", 5}, {"blocklist.", 6},
+		{"bookmarks.", 7}, {"pubsub.Fetch", 7}, {"history.", 8}, {"muc.GetConfig", 9}, {"bin.Get", 10},
+		{"commands.Execute", 11}, {"commands.ForEach", 11}, {"pubsub.Publish", 13}, {"pubsub.GetConfig", 14}, {"pubsub.GetDefaultConfig", 15},
+	} {
+		if strings.HasPrefix(helper, m.prefix) {
+			return m.idx
+		}
+	}
+	return -1
 }
